@@ -427,6 +427,7 @@ type State struct {
 	dead   bool
 	epoch     int
 	havocked  bool
+	loopHavoc bool
 	lazyHavoc []lazyHavocRec
 }
 
@@ -438,7 +439,7 @@ func (st *State) clone() *State {
 		ghost: make(map[string]Value, len(st.ghost)),
 		now:   st.now,
 		alloc: st.alloc,
-		epoch: st.epoch, havocked: st.havocked,
+		epoch: st.epoch, havocked: st.havocked, loopHavoc: st.loopHavoc,
 		lazyHavoc: append([]lazyHavocRec(nil), st.lazyHavoc...),
 	}
 	for k, v := range st.vars {
